@@ -42,34 +42,28 @@ var strFuncs = map[string]LGFunction{
 
 func strByte(L *LState) int {
 	str := L.CheckString(1)
-	start := L.OptInt(2, 1) - 1
-	end := L.OptInt(3, -1)
 	l := len(str)
+	start := L.OptInt(2, 1)
 	if start < 0 {
-		start = l + start + 1
+		start = intMax(l+start+1, 0)
 	}
+	end := L.OptInt(3, start)
 	if end < 0 {
-		end = l + end + 1
+		end = intMax(l+end+1, 0)
 	}
-
-	if L.GetTop() == 2 {
-		if start < 0 || start >= l {
-			return 0
-		}
-		L.Push(LNumber(str[start]))
-		return 1
+	if start < 1 {
+		start = 1
 	}
-
-	start = intMax(start, 0)
-	end = intMin(end, l)
-	if end < 0 || end <= start || start >= l {
+	if end > l {
+		end = l
+	}
+	if start > end {
 		return 0
 	}
-
-	for i := start; i < end; i++ {
-		L.Push(LNumber(str[i]))
+	for i := start; i <= end; i++ {
+		L.Push(LNumber(str[i-1]))
 	}
-	return end - start
+	return end - start + 1
 }
 
 func strChar(L *LState) int {
